@@ -164,17 +164,39 @@ def mode_order_rules(ctx):
 
 
 CONFIG_API = [
-    # (function, what every return path must return — printed term with & * ( ) removed, writes: {field: value} or None)
-    (r"pattern::Pattern::new$", "Patternpattern, token_type, None", {}),
-    (r"pattern::Pattern::with_lookahead$", "Patternself.pattern, self.token_type, Somelookahead", {}),
-    (r"pattern::Pattern::set_token_type$", None, {"token_type": "token_type"}),
-    (r"pattern::Pattern::pattern$", "self.pattern", {}),
-    (r"pattern::Pattern::terminal_id$", "self.token_type", {}),
-    (r"pattern::Pattern::lookahead$", "self.lookahead", {}),
-    (r"pattern::Lookahead::new$", "Lookaheadis_positive, pattern", {}),
-    (r"pattern::Lookahead::pattern$", "self.pattern", {}),
-    (r"pattern::Lookahead::is_positive$", "self.is_positive", {}),
+    # (function, record fields, what every return path must return: {field: value} for a record, a string for a plain value
+    #  (printed terms with & * ( ) removed), writes: {field: value})
+    (r"pattern::Pattern::new$", ("pattern", "token_type", "lookahead"), {"pattern": "pattern", "token_type": "token_type", "lookahead": "None"}, {}),
+    (r"pattern::Pattern::with_lookahead$", ("pattern", "token_type", "lookahead"), {"pattern": "self.pattern", "token_type": "self.token_type", "lookahead": "Somelookahead"}, {}),
+    (r"pattern::Pattern::set_token_type$", ("pattern", "token_type", "lookahead"), None, {"token_type": "token_type"}),
+    (r"pattern::Pattern::pattern$", (), "self.pattern", {}),
+    (r"pattern::Pattern::terminal_id$", (), "self.token_type", {}),
+    (r"pattern::Pattern::lookahead$", (), "self.lookahead", {}),
+    (r"pattern::Lookahead::new$", ("is_positive", "pattern"), {"is_positive": "is_positive", "pattern": "pattern"}, {}),
+    (r"pattern::Lookahead::pattern$", (), "self.pattern", {}),
+    (r"pattern::Lookahead::is_positive$", (), "self.is_positive", {}),
 ]
+
+
+def _plain(t):
+    s_ = re.sub(r"[&*()]", "", S.fstr(t))
+    # a field taken from `..Default::default()`: the only defaulted field of the configuration records is the Option
+    return "None" if re.match(r"^(\w+::)*default\.lookahead$", s_) else s_
+
+
+def _record(t, names):
+    """{field: printed value} of a record value, whether it was written as a struct literal, with struct-update syntax over
+    `self`, or by assigning fields of a moved `self`."""
+    if t[0] == "adt" and len(t[3]) == len(names):
+        return {n_: _plain(v_) for n_, v_ in zip(names, t[3])}
+    if t[0] == "upd" and len(t[2]) == 1:
+        d_ = _record(t[1], names)
+        if d_ is not None:
+            d_[str(t[2][0][1])] = _plain(t[3])
+        return d_
+    if t == ("sym", "self") or (t[0] == "deref" and t[1] == ("sym", "self")):
+        return {n_: "self." + n_ for n_ in names}
+    return None
 
 
 def config_api_rules(ctx, rule):
@@ -182,8 +204,9 @@ def config_api_rules(ctx, rule):
     keeps the rest, `set_token_type` writes that one field, a getter returns its field.  (A setter that rebuilds the value
     with `..Default::default()` silently drops the lookahead: the scanner is then compiled from another configuration than
     the one the user wrote.)"""
+    from .common import cond_variant
     F = ctx.facts
-    for rx, want_ret, want_writes in CONFIG_API:
+    for rx, names, want_ret, want_writes in CONFIG_API:
         fn = F.fn(rx)
         ctx.analysed_fn(fn)
         ex, paths = run_fn(fn, F, Model())
@@ -191,22 +214,31 @@ def config_api_rules(ctx, rule):
         rp = ret_paths(paths)
         ctx.ob(rule, "config-api:%s:returns" % short, len(rp) >= 1 and len(rp) == len(paths), "%d of %d paths return" % (len(rp), len(paths)), fn.loc())
         for p in rp:
-            got = re.sub(r"[&*()]", "", S.fstr(p.end[1]))
-            if want_ret is not None:
+            if isinstance(want_ret, dict):
+                got = _record(p.end[1], names)
                 ctx.ob(rule, "config-api:%s:result" % short, got == want_ret, "returns %s" % S.fstr(p.end[1])[:100], fn.loc())
+            elif want_ret is not None:
+                got = _plain(p.end[1])
+                ok = got == want_ret
+                if not ok and want_ret == "self.lookahead":
+                    # as_ref() written as a match: Some(&payload) where the field is Some, None where it is None
+                    est = [cond_variant(c_, o_) for c_, o_ in p.conds]
+                    est = [cv_[1] for cv_ in est if cv_ is not None and _plain(cv_[0]) == "self.lookahead"]
+                    ok = (got == "Someself.lookahead.Some.0" and est[-1:] == ["Some"]) or (got == "None" and est[-1:] == ["None"])
+                ctx.ob(rule, "config-api:%s:result" % short, ok, "returns %s" % S.fstr(p.end[1])[:100], fn.loc())
             ws = {}
             whole = []
             for e in p.events:
                 if e[0] == "write" and e[2][0] != "local":
                     if e[3]:
-                        ws[e[3][-1][1]] = re.sub(r"[&*()]", "", S.fstr(e[4]))
+                        ws[e[3][-1][1]] = _plain(e[4])
                     else:
-                        whole.append(S.fstr(e[4]))
+                        whole.append(e[4])
             if whole:
                 # the whole record is replaced: it must be the old record with exactly the wanted fields changed
-                exp = "Pattern" + ", ".join(want_writes.get(f_, "self." + f_) for f_ in ("pattern", "token_type", "lookahead"))
-                okw = all(re.sub(r"[&*()]", "", w_) == exp for w_ in whole) and "Pattern::" in fn.name
-                ctx.ob(rule, "config-api:%s:writes" % short, okw, "replaces *self by %s" % [w_[:100] for w_ in whole], fn.loc())
+                exp = {n_: want_writes.get(n_, "self." + n_) for n_ in names}
+                okw = bool(names) and all(_record(w_, names) == exp for w_ in whole)
+                ctx.ob(rule, "config-api:%s:writes" % short, okw, "replaces *self by %s" % [S.fstr(w_)[:100] for w_ in whole], fn.loc())
             else:
                 ctx.ob(rule, "config-api:%s:writes" % short, ws == want_writes, "writes %s" % (ws or "nothing"), fn.loc())
 
@@ -419,6 +451,8 @@ def mode_switch_rules(ctx):
 
 
 def check(ctx):
+    from .common import compiled_scanner_is_frozen
+    compiled_scanner_is_frozen(ctx, "C02.m")   # nothing edits a compiled scanner after the pipeline produced it (closed writer sets)
     F = ctx.facts
     ctx.trust("rustc type checker / MIR construction (nightly), the fact driver")
     ctx.trust("log macros (trace!/debug!) are effect-free")
